@@ -517,7 +517,10 @@ func c14Own(env *Env) {
 			r.Fail("C14/LEN", "checkOptionsLengths-enforced", env.P.Pos(a.Ret.Pos()), "PolicyToOptions can succeed without checkOptionsLengths having accepted the returned options")
 		}
 		used := map[string]bool{}
-		for _, grp := range []struct{ opt, polT string; base *flow.Term }{{"HeaderOptions", "HeaderPolicy", hp}, {"TdQuoteBodyOptions", "TDQuoteBodyPolicy", bp}} {
+		for _, grp := range []struct {
+			opt, polT string
+			base      *flow.Term
+		}{{"HeaderOptions", "HeaderPolicy", hp}, {"TdQuoteBodyOptions", "TDQuoteBodyPolicy", bp}} {
 			st := sp.Type(grp.opt).Type().Underlying().(*types.Struct)
 			var sub *flow.Term
 			for _, fi := range o.Args {
